@@ -5,6 +5,8 @@ Core Lean only.
 -/
 import PysersicModel.Gen.EarlyStopProg
 
+set_option linter.unusedSimpArgs false
+
 namespace Pysersic.Proofs.GenEarlyStop
 open Pysersic.EarlyStop Pysersic.Imp Pysersic.Gen.EarlyStopProg
 
